@@ -95,6 +95,14 @@ claim("C04",
       "for the exact obligations.",
       "DESIGN.md §4 C04")
 
+claim("C02",
+      "Proof that an accepted info dictionary has a total length equal to the exact sum of its file lengths (shared with "
+      "C06) and that a sub-range read of a piece hands the storage layer exactly the byte ranges that make up "
+      "[off, off+len) of the concatenated sections (first section from its inner offset, later sections whole, enough "
+      "sections to cover the request), using prefix-sum spec functions. Partial: piece construction and block layout are "
+      "added as their contracts discharge; torrent creation from a directory is outside.",
+      "DESIGN.md §4 C02")
+
 na("C10", "liveness/progress over unbounded schedules of several goroutines: a function contract cannot state fairness or progress measures (DESIGN.md §4 C10)")
 na("C20", "data races and lock-ups quantify over schedules; the contracts are sequential and assume the single-owner discipline C20 asks to prove (DESIGN.md §4 C20)")
 for p in ["C01", "C02", "C04", "C05", "C06", "C07", "C08", "C09", "C11", "C12", "C13", "C14", "C15", "C17", "C18", "C19"]:
